@@ -492,6 +492,19 @@ func runX11(p *an.Prog, r *an.Result) {
 	}
 	notKind := func(k int64) func(ssa.Value, bool) bool {
 		return func(cond ssa.Value, taken bool) bool {
+			// a predicate over kinds of the module (isListKind(kind)), read as a table: its answer on this edge
+			// differs from its answer for k
+			if c := an.CallOf(cond); c != nil && len(c.Args) == 1 && isPkgType(c.Args[0].Type(), "reflect", "Kind") {
+				if callee := c.StaticCallee(); callee != nil && p.InModule(callee) {
+					if t := kindTableOf(p, callee, 0); t.ok {
+						want := int64(0)
+						if taken {
+							want = 1
+						}
+						return t.val[[2]int64{k, 0}] != want
+					}
+				}
+			}
 			b, ok := cond.(*ssa.BinOp)
 			if !ok || !(b.Op == token.EQL && !taken || b.Op == token.NEQ && taken) {
 				return false
@@ -763,6 +776,26 @@ func runF9(p *an.Prog, r *an.Result) {
 		b, ok := t.Underlying().(*types.Basic)
 		return ok && b.Info()&types.IsInteger != 0
 	}
+	indexUnit := map[*ssa.Function]bool{}
+	for _, fn := range p.Funcs {
+		if fn.Name() == "IndexValue" && fn.Signature.Recv() != nil && fn.Pkg != nil && an.RelPkg(fn.Pkg.Pkg.Path()) == "values" {
+			for _, f := range unitWithHelpers(p, fn) {
+				// a helper counts only if nothing outside the IndexValue methods calls it
+				only := f == fn
+				if !only {
+					only = true
+					for _, site := range callSitesOf(p, f) {
+						if pf := an.Outermost(site.Parent()); pf.Name() != "IndexValue" && !indexUnit[pf] {
+							only = false
+						}
+					}
+				}
+				if only {
+					indexUnit[f] = true
+				}
+			}
+		}
+	}
 	for _, fn := range p.Funcs {
 		if isMainPkg(fn) || p9OutOfScope(p, fn) != "" {
 			continue
@@ -851,6 +884,22 @@ func runF9(p *an.Prog, r *an.Result) {
 				}
 				if okUses {
 					r.OK(name, construct, cv.Pos(), "every use is guarded by float(result) == original")
+					return
+				}
+			}
+			// (iii) an array index: Liquid truncates a fractional index (a[1.9] is a[1]); the conversion is in the
+			// unit of a wrapper's IndexValue and takes the index value itself (X19 holds it to that)
+			if indexUnit[an.Outermost(fn)] {
+				direct := true
+				for _, o := range an.Origins(cv.X, an.StepValue) {
+					switch o.(type) {
+					case *ssa.TypeAssert, *ssa.Extract, *ssa.Parameter, *ssa.Call:
+					default:
+						direct = false
+					}
+				}
+				if direct {
+					r.OK(name, construct, cv.Pos(), "the truncation of a fractional array index, of the index value itself")
 					return
 				}
 			}
